@@ -1,5 +1,5 @@
 (* Driver around the extracted descriptor model (engine FDS, shared by C02/C04/C08).
-   case:  run <variant: 5 flags dupclose,bcap,capclose,capfail,bunop e.g. 11111 = the code as it is> <capture 0|1> <failing pipe() calls: - or 0,2> <unopenable paths: - or 3,4>
+   case:  run <variant: 7 flags dupclose,bcap,capclose,capfail,bunop,bfold,capfirst e.g. 1111100 = the code as it is> <capture 0|1> <failing pipe() calls: - or 0,2> <unopenable paths: - or 3,4>
               <initial table: 0,1,2,5x>  <stages: K:FROM:REDIRS:PRINTS|...>
    K = E(xternal) B(uiltin) N(ot found); FROM = - | h | <N ; REDIRS = - or comma list of
    1tN 1aN 2tN 2aN (trunc/append to path N) 2&1 1&2 1&1 2&2 ; PRINTS = string of o / e or - *)
@@ -75,7 +75,7 @@ let () =
       let d = dec_bytes in
       let fl = d fx in
       let fb i = String.length fl > i && fl.[i] = '1' in
-      let v = { v_dupclose = fb 0; v_bcap = fb 1; v_capclose = fb 2; v_capfail = fb 3; v_bunop = fb 4 } in
+      let v = { v_dupclose = fb 0; v_bcap = fb 1; v_capclose = fb 2; v_capfail = fb 3; v_bunop = fb 4; v_bfold = fb 5; v_capfirst = fb 6 } in
       let capture = d cap = "1" in
       let fails = ints (d fails) and unop = ints (d unop) in
       let sts = List.map parse_stage (String.split_on_char '|' (d stages)) in
